@@ -557,7 +557,10 @@ pub(crate) fn add_mapping_pop<W, R, T>(
             rt.can_allocate((mapping.len - 1) * 2 * size_of::<usize>())?;
             let mut new_dict = HashMap::from_iter(mapping.inner.iter().filter(|(k, _)| k != &&hash_key).map(|(k, b)| (*k, b.clone())));
             let old_bucket = &mapping.inner[&hash_key];
-            new_dict.insert(hash_key, old_bucket.iter().take(idx).chain(old_bucket.iter().skip(idx + 1)).cloned().collect());
+            if old_bucket.len() > 1 {
+                // a bucket that becomes empty is dropped, so that equal collections have equal layouts (and hashes)
+                new_dict.insert(hash_key, old_bucket.iter().take(idx).chain(old_bucket.iter().skip(idx + 1)).cloned().collect());
+            }
             Ok(manage_native!(
                         XMapping::new(mapping.hash_func.clone(), mapping.eq_func.clone(), new_dict, mapping.len-1),
                         rt
@@ -588,7 +591,10 @@ pub(crate) fn add_mapping_discard<W, R, T>(
             rt.can_allocate((mapping.len - 1) * 2* size_of::<usize>())?;
             let mut new_dict = HashMap::from_iter(mapping.inner.iter().filter(|(k, _)| k != &&hash_key).map(|(k, b)| (*k, b.clone())));
             let old_bucket = &mapping.inner[&hash_key];
-            new_dict.insert(hash_key, old_bucket.iter().take(idx).chain(old_bucket.iter().skip(idx + 1)).cloned().collect());
+            if old_bucket.len() > 1 {
+                // a bucket that becomes empty is dropped, so that equal collections have equal layouts (and hashes)
+                new_dict.insert(hash_key, old_bucket.iter().take(idx).chain(old_bucket.iter().skip(idx + 1)).cloned().collect());
+            }
             Ok(manage_native!(
                         XMapping::new(mapping.hash_func.clone(), mapping.eq_func.clone(), new_dict, mapping.len-1),
                         rt
